@@ -1,4 +1,5 @@
 """C05 - index and point selection return the stored values, complete and in order."""
+import warnings
 import numpy
 import pandas
 import xarray
@@ -207,6 +208,19 @@ def run(ctx):
                         if not nan_equal(s1[1][nm].values, want.values):
                             bad = f'select_index: {nm} differs from the stored value at {rows[0]}'
                             break
+            # a request holding one index outside the grid is refused: no other cell is returned in its place
+            if not bad:
+                gshape = [ds.sizes[g] for g in gdims]
+                ax_ = len(rows) % len(gshape)
+                off_ = list(rows[0])
+                off_[ax_] = gshape[ax_] + (len(rows) % 2)
+                req = natives[:1] + [to_native(flav, enums, kind, off_)]
+                with warnings.catch_warnings():
+                    warnings.simplefilter('ignore')
+                    r_off = attempt(lambda: ems.select_indexes(req).load())
+                ctx.count('select_indexes:outside the grid')
+                if r_off[0] == 'ok':
+                    bad = f'select_indexes accepted the index {off_} outside the grid of shape {gshape} and returned data for it'
             # selectors made for several indexes first and used afterwards: each still selects its own cell
             if not bad and want_vars:
                 sels = attempt(lambda: [ems.selector_for_index(nat_) for nat_ in natives])
@@ -321,6 +335,14 @@ def run(ctx):
                         bad = f'{cname}: NonIntersectingPoints raised under policy {pol}'
                     elif got != misses:
                         bad = f'{cname}: error names points {got}, the points that miss are {misses}'
+                    else:
+                        # the older spelling of the same attribute names the same points
+                        with warnings.catch_warnings():
+                            warnings.simplefilter('ignore')
+                            old_ = attempt(lambda: sorted(int(x) for x in e.indices))
+                        ctx.count('error:indices alias')
+                        if old_[0] == 'ok' and old_[1] != misses:
+                            bad = f'{cname}: error.indices names points {old_[1]}, the points that miss are {misses}'
                 except ValueError as e:
                     impl = (2, [])
                     if any(f is not None for f in found):
